@@ -2,8 +2,7 @@
 from core import FuncSpec, CopySpec, EnumSpec, Harness
 F = 'include/jsoncons/sorted_json_object.hpp'
 RULES = [
-    (r'std::lower_bound\(hint,\s*data_\.end\(\), name,\s*(?:Comp\(\)|\[\]\(const key_value_type& a, const string_view_type& k\) -> bool \{return string_view_type\(a\.key\(\)\)\.compare\(k\) < 0;\})\);', 'vx_lower_bound(hint, vx_size);', 0, 1),
-    (r'std::lower_bound\(data_\.begin\(\),\s*data_\.end\(\), name,\s*(?:Comp\(\)|\[\]\(const key_value_type& a, const string_view_type& k\) -> bool \{return string_view_type\(a\.key\(\)\)\.compare\(k\) < 0;\})\);', 'vx_lower_bound(0, vx_size);', 1, 2),
+    (r'std::lower_bound\(([^,;]+),\s*data_\.end\(\), name,\s*(?:Comp\(\)|\[\]\(const key_value_type& a, const string_view_type& k\) -> bool \{return string_view_type\(a\.key\(\)\)\.compare\(k\) < 0;\})\);', r'vx_lower_bound(\1, vx_size);', 1, 2),
     (r'hint->key\(\) (<=|<|>=|>|==|!=) name', r'vx_key_at(hint) \1 vx_name', 0, 2), (r'\(\*it\)\.key\(\) (<=|<|>=|>|==|!=) name', r'vx_key_at(it) \1 vx_name', 1, 2),
     (r'data_\.emplace_back\(key_type\(name\.begin\(\),\s*name\.end\(\)(?:,\s*get_allocator\(\))?\),\s*std::forward<(?:Args|T)>\((?:args|value)\)(?:\.\.\.)?\);', 'vx_emplace(vx_size);', 1),
     (r'data_\.emplace\(it,\s*key_type\(name\.begin\(\),\s*name\.end\(\)(?:,\s*get_allocator\(\))?\),\s*std::forward<(?:Args|T)>\((?:args|value)\)(?:\.\.\.)?\);', 'vx_emplace(it);', 1),
